@@ -209,6 +209,14 @@ namespace bloch::compiler {
         if (m_cache.count(canon))
             return;
 
+        // loadModule recurses once per import level; a chain of imports deeper than this is
+        // refused with a diagnostic rather than exhausting the native stack.
+        constexpr size_t kMaxImportDepth = 1000;
+        if (m_stack.size() >= kMaxImportDepth)
+            throw BlochError(ErrorCategory::Semantic, 0, 0,
+                             "imports are nested more than " + std::to_string(kMaxImportDepth) +
+                                 " modules deep at '" + canon + "'");
+
         m_stack.push_back(canon);
         std::unique_ptr<Program> program = parseFile(canon);
 
